@@ -5,7 +5,7 @@ from vlib.common import harness_many, CheckerError
 META = {
     "level": "exploration",
     "text": "Bounded stand-in: the real esr.fitting.test_all.optimise_fun (default Niter/Nconv, pmin=0, pmax=3) is run on generated data for "
-            "linear-in-parameter families with 1, 2, 3 and 4 parameters (basis functions 1, x, x**2, 1/x, sqrt(x), exp(-x), log(x)), every sign pattern of the "
+            "linear-in-parameter families with 1, 2, 3 and 4 parameters (basis functions 1, x, x**2, 1/x, sqrt(x), exp(-x), log(x), and sqrt / pow of an argument that changes sign on the data: ESR's operators act on absolute values), every sign pattern of the "
             "true parameters, magnitudes 0.1..50, homo- and heteroscedastic Gaussian noise, several data/optimiser seeds, log_opt False and True. "
             "Oracle: closed-form weighted least squares (numpy lstsq on the weighted design matrix) and the Gaussian NLL formula (math.fsum). Checked per fit: "
             "returned nll within max(1e-2, 1e-3*|min|) of the closed-form minimum and not below it; likelihood.negloglike(params[:k], lambdified function built as "
@@ -21,7 +21,7 @@ CHECKER = "./bin/check C10"
 
 FAM_QUICK = {
     1: [["x"], ["1"], ["1/x"], ["x**2"]],
-    2: [["1", "x"], ["x", "1/x"], ["x", "x**2"], ["sqrt(x)", "exp(-x)"]],
+    2: [["1", "x"], ["x", "1/x"], ["x", "x**2"], ["sqrt(x)", "exp(-x)"], ["sqrt(x-1.7)", "1"], ["pow(x-1.7,3)", "x"]],
     3: [["1", "x", "x**2"], ["x", "1/x", "1"], ["1", "sqrt(x)", "exp(-x)"]],
     4: [["1", "x", "x**2", "1/x"]],
 }
